@@ -79,7 +79,7 @@ def locate(func, loc):
         st = _nth(hits, n, f"assignment to `{target}`")
         if isinstance(st, ast.AugAssign):
             # x op= e  ==> x op e
-            return ast.BinOp(left=st.target, op=st.op, right=st.value), None
+            return ast.copy_location(ast.BinOp(left=st.target, op=st.op, right=st.value), st), None
         return st.value, None
     if kind == "assign_unique":
         target = loc[1]
@@ -105,6 +105,11 @@ def locate(func, loc):
         fs = [x for x in ast.walk(func) if isinstance(x, ast.For)]
         fs.sort(key=lambda x: (x.lineno, x.col_offset))
         return _nth(fs, loc[1], "for").iter, None
+    if kind == "genexp_elt":
+        gs = [x for x in ast.walk(func) if isinstance(x, ast.GeneratorExp)]
+        gs.sort(key=lambda x: (x.lineno, x.col_offset))
+        hits = [g for g in gs if loc[1] in ast.unparse(g)]
+        return _nth(hits, loc[2] if len(loc) > 2 else 0, f"generator containing `{loc[1]}`").elt, None
     if kind == "whiletest":
         ws = [x for x in ast.walk(func) if isinstance(x, ast.While)]
         ws.sort(key=lambda x: (x.lineno, x.col_offset))
@@ -235,6 +240,11 @@ class Tr:
                 if fn not in self.funparams:
                     self.funparams.append(fn)
                 return "(" + fn + " " + " ".join(self.num(a) for a in args) + ")"
+            if f == "max" and len(args) == 1 and isinstance(args[0], ast.BinOp) and isinstance(args[0].op, ast.Add) and isinstance(args[0].left, ast.List) and len(args[0].left.elts) == 1:
+                # max([a] + xs)  ==> fold of max over xs starting from a
+                xs = self.var(ast.unparse(args[0].right))
+                self.spec.setdefault("lists", set()).add(xs)
+                return f"(List.foldl max {self.num(args[0].left.elts[0])} {xs})"
             if f in ("max", "jnp.maximum", "onp.maximum", "jnp.max", "np.maximum"):
                 if len(args) == 1 and isinstance(args[0], (ast.List, ast.Tuple)):
                     args = args[0].elts
@@ -387,7 +397,15 @@ def translate(spec, src_cache):
     if lam_args is not None and "params" not in spec:
         for a in lam_args:
             tr.var(a)
-    if spec.get("result") == "List":
+    if spec.get("result") == "IntOfFloor0":
+        if not (isinstance(expr, ast.BinOp) and isinstance(expr.op, ast.FloorDiv)):
+            raise ExtractError(f"expected a // b, got `{ast.unparse(expr)}`")
+        body = f"Rex.FloorDiv.fdiv {tr.num(expr.left)} {tr.num(expr.right)}"
+    elif spec.get("result") == "IntOfFloor":
+        if not (isinstance(expr, ast.Call) and ast.unparse(expr.func) == "int" and isinstance(expr.args[0], ast.BinOp) and isinstance(expr.args[0].op, ast.FloorDiv)):
+            raise ExtractError(f"expected int(a // b), got `{ast.unparse(expr)}`")
+        body = f"Rex.FloorDiv.fdiv {tr.num(expr.args[0].left)} {tr.num(expr.args[0].right)}"
+    elif spec.get("result") == "List":
         body = tr.lst(expr)
     else:
         body = tr.boolean(expr) if spec.get("result") == "Bool" else tr.num(expr)
@@ -411,7 +429,7 @@ def translate(spec, src_cache):
     elem = spec.get("elem", "β")
     for p in params:
         if p in lists:
-            ps.append(f"({p} : List {elem})")
+            ps.append(f"({p} : List {elem if spec.get('result') == 'List' else tr.ty})")
         elif p in nats:
             ps.append(f"({p} : Nat)")
         elif p in tr.bools:
@@ -422,7 +440,9 @@ def translate(spec, src_cache):
             ps.append(f"({p} : Int)")
         else:
             ps.append(f"({p} : {tr.ty})")
-    rty = "Bool" if spec.get("result") == "Bool" else (f"List {elem}" if spec.get("result") == "List" else tr.ty)
+    if spec.get("result") in ("IntOfFloor", "IntOfFloor0"):
+        ps.insert(0, "[Rex.FloorDiv α]")
+    rty = "Int" if spec.get("result") in ("IntOfFloor", "IntOfFloor0") else "Bool" if spec.get("result") == "Bool" else (f"List {elem}" if spec.get("result") == "List" else tr.ty)
     if spec.get("result") == "List" and elem == "β":
         ps.insert(0, "{β : Type}")
     src_txt = ast.unparse(expr)
